@@ -39,6 +39,7 @@ type Call struct {
 	Deferred bool        // the call of a defer statement
 	Go       bool        // the call of a go statement
 	Loc      Loc
+	Inlined  *Call // non-nil: this call is made by a novel helper; Inlined is the helper call in the unit, Loc its location
 }
 
 func (c *Call) Pos() token.Pos { return c.Expr.Pos() }
@@ -478,6 +479,13 @@ func (u *Unit) SingleDef(e ast.Expr) (ast.Expr, bool) {
 	for depth := 0; depth < 8; depth++ {
 		id, ok := ast.Unparen(e).(*ast.Ident)
 		if !ok {
+			// the result of a novel pure helper is the expression it returns
+			if ce, isCall := ast.Unparen(e).(*ast.CallExpr); isCall {
+				if x := u.expandPureCall(ce, depth, false); x != nil {
+					e = x
+					continue
+				}
+			}
 			return e, true
 		}
 		obj, _ := ObjOf(info, id).(*types.Var)
